@@ -47,7 +47,7 @@ for _n, _c in (('EAGAIN', 'BlockingIOError'), ('EALREADY', 'BlockingIOError'), (
 
 PLAIN_CLASSES = ['int', 'bool', 'str', 'bytes', 'bytearray', 'list', 'tuple', 'dict', 'set', 'frozenset',
                  'float', 'type', 'NoneType', 'memoryview', 'function', 'deque', 'range', 'module',
-                 'defaultdict', 'Lock', 'Condition']
+                 'defaultdict', 'Lock', 'Condition', 'Thread']
 
 
 class World(object):
@@ -259,6 +259,9 @@ class World(object):
                 o.fields['value'] = args[0] if args else None
             if o.cls.issubclass(self.bclasses['SystemExit']):
                 o.fields['code'] = args[0] if args else None
+        elif o.cls.issubclass(self.bclasses['Thread']):
+            o.fields.setdefault('name', kwargs.get('name'))
+            o.fields.setdefault('_target', kwargs.get('target'))
         elif args or kwargs:
             ex.throw('TypeError', '%s() takes no arguments' % o.cls.name)
 
@@ -284,7 +287,7 @@ class World(object):
         b = {}
         for n, c in self.bclasses.items():
             if '.' not in n and n not in ('function', 'module', 'NoneType', 'deque', 'defaultdict',
-                                          'Lock', 'Condition'):
+                                          'Lock', 'Condition', 'Thread'):
                 b[n] = c
         for name, fn in BUILTIN_FUNCS.items():
             b[name] = NativeFunc(name, fn)
@@ -331,7 +334,7 @@ class World(object):
             'RLock': NativeFunc('threading.RLock', lambda ex, a, k: LockVal(True)),
             'Condition': NativeFunc('threading.Condition',
                                     lambda ex, a, k: CondVal(a[0] if a else LockVal(True))),
-            'Thread': Missing('threading.Thread'),
+            'Thread': self.bclasses['Thread'],
             'current_thread': Missing('threading.current_thread'),
         })
         mod('collections', {
